@@ -31,6 +31,9 @@ func exists(lo, hi int, p func(int) bool) bool {
 	return false
 }
 
+// entry(x) is the value x had when the loop whose invariant mentions it was entered.
+func entry[T any](x T) T { return x }
+
 // ---- spec functions ----
 
 func specIsHexDigit(c byte) bool {
@@ -48,8 +51,136 @@ func specCSSWhitespace(c byte) bool {
 //@   props C07 C06
 //@   ensures (specIsHexDigit(c) || specCSSWhitespace(c)) ==> result
 
+// ---------------------------------------------------------------------------
+// Abstract writer (ghost state kept by the verifier for every io.Writer /
+// strWriter value): wfailed(w) - a write on w has returned an error;
+// werr(w) - that error. A write requires !wfailed(w) ("no byte is written
+// after the failure", C13).
+// ---------------------------------------------------------------------------
+
+func wfailed(w any) bool { return false }
+func werr(w any) error   { return nil }
+
+// Escapers: never panic, terminate (C05); stop at the first failed write and
+// return the writer's error (C13).
+
 //@ func htmlEscape
 //@   props C05 C13 C07
+//@   opt writerprop C13
+//@   requires !wfailed(w)
+//@   ensures[C13] result != nil ==> wfailed(w) && result == werr(w)
+//@   ensures[C13] result == nil ==> !wfailed(w)
 //@   loop 0
 //@     invariant 0 <= last && last <= i && i <= len(s)
+//@     invariant !wfailed(w)
+//@     decreases len(s) - i
+
+//@ func htmlNoEntitiesEscape
+//@   props C05 C13 C07
+//@   opt writerprop C13
+//@   requires !wfailed(w)
+//@   ensures[C13] result != nil ==> wfailed(w) && result == werr(w)
+//@   ensures[C13] result == nil ==> !wfailed(w)
+//@   loop 0
+//@     invariant 0 <= last && last <= i && i <= len(s)
+//@     invariant !wfailed(w)
+//@     decreases len(s) - i
+
+//@ func attributeEscape
+//@   props C05 C13 C07
+//@   opt writerprop C13
+//@   requires !wfailed(w)
+//@   ensures[C13] result != nil ==> wfailed(w) && result == werr(w)
+//@   ensures[C13] result == nil ==> !wfailed(w)
+//@   loop 0
+//@     invariant 0 <= last && last <= i && i <= len(s)
+//@     invariant !wfailed(w)
+//@     decreases len(s) - i
+
+//@ func cssStringEscape
+//@   props C05 C13 C07
+//@   opt writerprop C13
+//@   requires !wfailed(w)
+//@   ensures[C13] result != nil ==> wfailed(w) && result == werr(w)
+//@   ensures[C13] result == nil ==> !wfailed(w)
+//@   loop 0
+//@     invariant 0 <= last && last <= i && i <= len(s)
+//@     invariant !wfailed(w)
+//@     decreases len(s) - i
+
+//@ func jsStringEscape
+//@   props C05 C13 C07
+//@   opt writerprop C13
+//@   requires !wfailed(w)
+//@   ensures[C13] result != nil ==> wfailed(w) && result == werr(w)
+//@   ensures[C13] result == nil ==> !wfailed(w)
+//@   loop 0
+//@     invariant 0 <= last && last <= i && i <= len(s)
+//@     invariant !wfailed(w)
+
+//@ func jsonStringEscape
+//@   props C05 C13 C07
+//@   opt writerprop C13
+//@   requires !wfailed(w)
+//@   ensures[C13] result != nil ==> wfailed(w) && result == werr(w)
+//@   ensures[C13] result == nil ==> !wfailed(w)
+
+//@ func pathEscape
+//@   props C05 C13 C07
+//@   opt writerprop C13
+//@   requires !wfailed(w)
+//@   ensures[C13] result1 != nil ==> wfailed(w) && result1 == werr(w)
+//@   ensures[C13] result1 == nil ==> !wfailed(w)
+//@   loop 0
+//@     invariant 0 <= last && last <= i && i <= len(s)
+//@     invariant !wfailed(w)
+//@     invariant buf == nil || len(buf) == 3
+//@     decreases len(s) - i
+
+//@ func queryEscape
+//@   props C05 C13 C07
+//@   opt writerprop C13
+//@   requires !wfailed(w)
+//@   ensures[C13] result1 != nil ==> wfailed(w) && result1 == werr(w)
+//@   ensures[C13] result1 == nil ==> !wfailed(w)
+//@   loop 0
+//@     invariant 0 <= last && last <= i && i <= len(s)
+//@     invariant !wfailed(w)
+//@     invariant buf == nil || len(buf) == 3
+//@     decreases len(s) - i
+
+//@ func isCDATA
+//@   props C05
+//@   requires 0 <= p
+//@   ensures result ==> len(s) >= p+9
+
+//@ func isHTMLComment
+//@   props C05
+//@   requires 0 <= p
+//@   ensures result ==> len(s) >= p+4
+
+//@ func markdownCodeBlockEscape
+//@   props C05 C13 C26
+//@   opt writerprop C13
+//@   requires !wfailed(w)
+//@   ensures[C13] result != nil ==> wfailed(w) && result == werr(w)
+//@   ensures[C13] result == nil ==> !wfailed(w)
+//@   loop 0
+//@     invariant 0 <= last && last <= i && i <= len(s)
+//@     invariant !wfailed(w)
+//@     decreases len(s) - i
+
+// markdownEscape: the errors "not closed HTML comment"/"not closed CDATA
+// section" are not writer errors, hence the weaker first postcondition.
+//@ func markdownEscape
+//@   props C05 C13 C26
+//@   opt writerprop C13
+//@   requires !wfailed(w)
+//@   ensures[C13] wfailed(w) ==> result != nil && result == werr(w)
+//@   loop 0
+//@     invariant 0 <= last && last <= i && last <= len(s) && i <= len(s)+1
+//@     invariant !wfailed(w)
+//@     decreases len(s) - i
+//@   loop 1
+//@     invariant 0 <= last && last <= i && i <= len(s) && entry(i) <= i
 //@     decreases len(s) - i
